@@ -228,6 +228,7 @@ func (cp *MultihashPrimary) Get(blk types.Block) ([]byte, []byte, error) {
 		return nil, nil, err
 	}
 	defer cp.fileCache.Close(file)
+	vhook.At("mh.get.after-open")
 
 	read := make([]byte, int(blk.Size+4))
 	if _, err = file.ReadAt(read, int64(localPos)); err != nil {
